@@ -107,7 +107,8 @@ fn removed_by(form: &Form, flags: &BTreeSet<String>) -> Option<&'static str> {
         ("NoBreak", m == "break"),
         ("NoEicall", m == "eicall"),
         ("NoEijmp", m == "eijmp"),
-        ("Avr8l", matches!(m, "adiw" | "sbiw")),
+        // the reduced core has no ldd/std either: their opcode space holds its one-word lds/sts
+        ("Avr8l", matches!(m, "adiw" | "sbiw" | "ldd" | "std")),
     ];
     for (f, applies) in checks {
         if applies && has(f) {
